@@ -61,6 +61,10 @@ pub fn lit_programs(tier: &str) -> (Vec<Program>, String) {
         level = "LIT: failing compare_exchange as a read (coherence); acquire load of an older store while a newer publication exists; message passing with every publishing / subscribing operation and fence; fence after two loads of flags published by two writers (all fence kinds); coherence through a third thread (5 publication idioms, two hops); staggered spawns; 2 threads <=4 events (all orderings, CAS), <=5 events on one location (reduced orderings), 3 threads <=4 events (reduced orderings) + sentinels".to_string();
     }
     v.extend(fam::lit_sentinels());
+    for k in ["LIT-LINS", "LIT-TINS"] {
+        v.extend(fam::op_ins_family(if tier == "quick" { 2 } else { 8 }, k, false));
+    }
+    let level = level + "; a relaxed load of an unrelated atomic / an extra thread spawned and joined by main inserted at every position of RMW-free sentinels and 2-thread programs";
     (v, level)
 }
 
